@@ -639,6 +639,11 @@ fn parse_value_like(
     let mut our_left = last_left;
     let mut our_id = id;
 
+    if *check_for_list && definition == Definition::ExpressionTerminator {
+        // an expression terminator is not a list item, same error as without white space in between
+        composition_error(SecondaryDefinition::Value, SecondaryDefinition::Value, &last_token)?;
+    }
+
     if *check_for_list {
         trace!("List flag is set, creating list node before current node.");
         our_id = id + 1;
